@@ -1,5 +1,6 @@
 import GlareModel.Core.Proto
 import GlareModel.Core.ExecStack
+import GlareModel.Core.Materialize
 import GlareModel.Proofs.ExecStack
 /-! # C04 — Every schedule terminates with the same result; no wake-up is lost
 
@@ -251,5 +252,179 @@ example : ExecStack.trace true 4 [0, 0, 4, 0, 0, 0] = "e0:0 e1:0 e2:4 f1:0 e3:0 
 
 /-- Non-vacuity of the hypotheses: a run that finishes with the protocol kept. -/
 example : (ExecStack.run true 4 [0, 0, 4, 0, 0, 0]).flow = .finished ∧ (ExecStack.run true 4 [0, 0, 4, 0, 0, 0]).broke = false := by decide
+
+/-! ## Materialize: a consumer never finishes before it has seen every row, and never sleeps forever
+
+Model: `Core/Materialize.lean` (`operators/materialize.rs`; tied to the code by the
+`cte_materialized_*` shapes of the controlled-scheduler runs, where the materialization is scanned
+two and three times under every schedule). -/
+section Materialize
+open GlareModel.Materialize
+
+structure MatInv (m : Mat) : Prop where
+  seen_le : ∀ c, m.seen c ≤ m.avail
+  /-- a consumer that reported Exhausted has seen every row, and no row can arrive any more -/
+  done_complete : ∀ c, m.phase c = .done → m.remaining = 0 ∧ m.seen c = m.avail
+  /-- a parked consumer that has not been woken still has a producer that will wake it -/
+  parked_has_waker : ∀ c, m.phase c = .parked → m.woken c = false → m.remaining > 0
+
+theorem mat_inv_init (n : Nat) : MatInv { remaining := n } := by
+  constructor <;> simp
+
+theorem mat_inv_step (m : Mat) (a : Materialize.Act) (h : MatInv m) : MatInv (Materialize.step true m a) := by
+  obtain ⟨h1, h2, h3⟩ := h
+  cases a with
+  | push =>
+    simp only [Materialize.step]
+    split
+    · exact ⟨h1, h2, h3⟩
+    · rename_i hr
+      constructor
+      · intro c; have := h1 c; simp; omega
+      · intro c hc; have := h2 c hc; omega
+      · intro c hc hw
+        have hc' : m.phase c = .parked := hc
+        simp [wakeAll] at hw
+        exact absurd hc' hw.1
+  | finalize =>
+    simp only [Materialize.step]
+    split
+    · exact ⟨h1, h2, h3⟩
+    · rename_i hr
+      constructor
+      · exact h1
+      · intro c hc; have := h2 c hc; omega
+      · intro c hc hw
+        have hc' : m.phase c = .parked := hc
+        simp [wakeAll] at hw
+        exact absurd hc' hw.1
+  | scan c =>
+    simp only [Materialize.step]
+    split
+    · split
+      · constructor
+        · intro x; simp only; split <;> simp [h1]
+        · intro x hx
+          simp only at hx
+          split at hx
+          · simp at hx
+          · rename_i hne
+            have := h2 x hx
+            simp [hne, this]
+        · intro x hx hw
+          simp only at hx hw
+          split at hx
+          · simp at hx
+          · rename_i hne
+            simp only [hne, if_false] at hw
+            exact h3 x hx hw
+      · constructor
+        · exact h1
+        · intro x hx
+          simp only at hx
+          split at hx
+          · simp at hx
+          · exact h2 x hx
+        · intro x hx hw
+          simp only at hx hw
+          split at hx
+          · simp at hx
+          · rename_i hne
+            simp only [hne, if_false] at hw
+            exact h3 x hx hw
+    · exact ⟨h1, h2, h3⟩
+  | check c =>
+    simp only [Materialize.step]
+    split
+    · rename_i hph
+      split
+      · rename_i hr
+        constructor
+        · exact h1
+        · intro x hx
+          simp only at hx
+          split at hx
+          · simp at hx
+          · exact h2 x hx
+        · intro x hx hw
+          exact hr
+      · rename_i hr
+        have hr0 : m.remaining = 0 := by omega
+        split
+        · rename_i hs
+          constructor
+          · intro x; simp only; split <;> simp [h1]
+          · intro x hx
+            simp only at hx
+            split at hx
+            · simp at hx
+            · rename_i hne
+              have := h2 x hx
+              simp [hne, this]
+          · intro x hx hw
+            simp only at hx
+            split at hx
+            · simp at hx
+            · exact h3 x hx hw
+        · rename_i hs
+          constructor
+          · exact h1
+          · intro x hx
+            simp only at hx
+            split at hx
+            · rename_i hxc
+              subst hxc
+              refine ⟨hr0, ?_⟩
+              show m.seen x = m.avail
+              have := h1 x
+              simp at hs
+              omega
+            · exact h2 x hx
+          · intro x hx hw
+            simp only at hx
+            split at hx
+            · simp at hx
+            · exact h3 x hx hw
+    · exact ⟨h1, h2, h3⟩
+
+theorem mat_inv_reachable (n : Nat) (acts : List Materialize.Act) : MatInv (Materialize.run true { remaining := n } acts) := by
+  suffices h : ∀ m, MatInv m → MatInv (Materialize.run true m acts) from h _ (mat_inv_init n)
+  induction acts with
+  | nil => intro m h; exact h
+  | cons a as ih => intro m h; exact ih _ (mat_inv_step m a h)
+
+
+/-- **A consumer that reports Exhausted has seen every row**, for every number of producers and
+consumers and every interleaving of appends, finishes, scans and locked checks - this is what the
+second scan in `poll_pull` is for. -/
+theorem materialize_done_saw_everything (n : Nat) (acts : List Materialize.Act) (c : Nat) :
+    let m := Materialize.run true { remaining := n } acts
+    m.phase c = .done → m.remaining = 0 ∧ m.seen c = m.avail :=
+  (mat_inv_reachable n acts).done_complete c
+
+/-- **No consumer sleeps forever**: a consumer that is parked and has not been woken still has a
+producer that has not finished - and every push and every finish wakes all parked consumers. Once
+all producers have finished nobody is parked un-woken. -/
+theorem materialize_no_lost_wake (n : Nat) (acts : List Materialize.Act) (c : Nat) :
+    let m := Materialize.run true { remaining := n } acts
+    m.remaining = 0 → m.phase c = .parked → m.woken c = true := by
+  intro m hr hp
+  cases hw : m.woken c
+  · have h := (mat_inv_reachable n acts).parked_has_waker c hp hw
+    have hr' : (Materialize.run true { remaining := n } acts).remaining = 0 := hr
+    omega
+  · rfl
+
+/-- Without the second scan a consumer loses rows: its scan finds nothing, the only producer then
+flushes a row and finishes, the locked check sees no producers left and reports Exhausted. -/
+theorem materialize_without_rescan_loses_rows :
+    let m := Materialize.run false { remaining := 1 } [Materialize.Act.scan 0, .push, .finalize, .check 0]
+    m.phase 0 = .done ∧ m.seen 0 = 0 ∧ m.avail = 1 := by decide
+
+/-- The same schedule with the second scan: the consumer picks the row up and stays runnable. -/
+example : (Materialize.run true { remaining := 1 } [Materialize.Act.scan 0, .push, .finalize, .check 0]).seen 0 = 1 := by decide
+example : (Materialize.run true { remaining := 1 } [Materialize.Act.scan 0, .push, .finalize, .check 0, .scan 0, .check 0]).phase 0 = .done := by decide
+
+end Materialize
 
 end GlareModel.Props.C04
